@@ -158,3 +158,95 @@ Proof.
     destruct (Nat.eqb_spec x y) as [->|Hxy]; cbn [b2n] in R; [|lia].
     rewrite A in IH |- *. rewrite B in IH |- *. cbn in IH |- *. unfold nenq in *. gts. lia.
 Qed.
+
+Lemma nenq_in q unl l : In (CbEnq q unl) l -> (1 <= sumf cb_enq l)%nat.
+Proof.
+  induction l as [|a l IH]; cbn; intros H; [contradiction|].
+  destruct H as [->|H]; [cbn; lia|]. specialize (IH H). lia.
+Qed.
+
+Lemma SUSP_le1 s y : (SUSP s y <= 1)%nat.
+Proof. unfold SUSP. destruct (get_thread s y) as [th|]; [|lia]. destruct (is_susp (main th)); cbn; lia. Qed.
+
+Lemma in_cq_count s c y : In y (nth c (cqs s) []) -> (1 <= cqcount s y)%nat.
+Proof. intros H. pose proof (qcount_in _ _ H). pose proof (cqcount_ge s c y). lia. Qed.
+
+Definition main_ok (th th' : thread) (t : nat) : Prop :=
+  main th' = main th \/ is_susp (main th) = false \/ (1 <= th_hand th t)%nat.
+
+Lemma Inv2_update s s1 t th th' wk :
+  Inv2 s -> get_thread s t = Some th -> wk_rel s s1 t wk ->
+  List.length (cqs s1) = 2%nat ->
+  (forall y, (QQ s1 y + th_hand th' y + selfn t y (nenq th' + b2n (is_susp (main th))) + wkn wk y
+              = QQ s y + th_hand th y + selfn t y (nenq th + b2n (is_susp (main th'))))%nat) ->
+  (forall x, wk = Some x -> (1 <= th_hand th x)%nat) ->
+  main_ok th th' t ->
+  (forall c y, In y (nth c (cqs s1) []) ->
+               In y (nth c (cqs s) []) \/ (y = t /\ main th' = Susp (ALFe (Z.of_nat c)))) ->
+  (forall c unl, In (CbEnq (QC c) unl) (cbs th') ->
+                 In (CbEnq (QC c) unl) (cbs th) \/ main th' = Susp (ALFe (Z.of_nat c))) ->
+  Inv2 (set_thread s1 t th').
+Proof.
+  intros I Hth W Hlen R Hwk Hmain Hq Henq.
+  pose proof (wk_rel_get _ _ _ _ W) as G.
+  assert (G1 : get_thread s1 t = Some th).
+  { rewrite G. destruct wk as [x|]; [|exact Hth]. destruct W as [Hx _].
+    destruct (Nat.eqb_spec x t); [contradiction|exact Hth]. }
+  pose proof (i2_sl _ I) as SL.
+  (* a thread in t's hand is in no queue and has no enqueue pending *)
+  assert (Hhand : forall x, (1 <= th_hand th x)%nat -> cqcount s x = O /\ ENQ s x = O).
+  { intros x Hx. pose proof (SL x) as E. pose proof (SUSP_le1 s x). pose proof (hands_ge s t th x Hth).
+    unfold occ in E. lia. }
+  assert (Hself : main th' = main th \/ (forall c, ~ In t (nth c (cqs s) [])) /\ nenq th = O).
+  { destruct Hmain as [E|[E|E]]; [left; exact E| |].
+    - right. pose proof (SL t) as X. unfold SUSP, ENQ in X. rewrite Hth, E in X. cbn in X. unfold occ in X.
+      split; [|lia]. intros c Hin. apply in_cq_count in Hin. lia.
+    - right. destruct (Hhand _ E) as [A B]. unfold ENQ in B. rewrite Hth in B. split; [|exact B].
+      intros c Hin. apply in_cq_count in Hin. lia. }
+  split.
+  - rewrite cqs_set_thread. exact Hlen.
+  - eapply sl_update; eauto.
+  - intros c y Hin. rewrite cqs_set_thread in Hin. rewrite get_set_thread, G1.
+    destruct (Hq _ _ Hin) as [Hold|[-> Hm]].
+    + destruct (i2_q _ I _ _ Hold) as (thy & Gy & My).
+      destruct (Nat.eqb_spec t y) as [->|Hty].
+      * rewrite Hth in Gy. inv Gy. exists th'. split; [reflexivity|].
+        destruct Hself as [E|[E _]]; [congruence|]. exfalso. eapply E; eauto.
+      * rewrite G. destruct wk as [x|]; [|eauto].
+        destruct (Nat.eqb_spec x y) as [->|Hxy]; [|eauto].
+        exfalso. destruct (Hhand y (Hwk _ eq_refl)) as [A _]. apply in_cq_count in Hold. lia.
+    + rewrite Nat.eqb_refl. eauto.
+  - intros u thu c unl Gu Hin. rewrite get_set_thread, G1 in Gu.
+    destruct (Nat.eqb_spec t u) as [->|Htu].
+    + inv Gu. destruct (Henq _ _ Hin) as [Hold|Hm]; [|exact Hm].
+      pose proof (i2_enq _ I _ _ _ _ Hth Hold) as M.
+      destruct Hself as [E|[_ E]]; [congruence|]. apply nenq_in in Hold. unfold nenq in E. lia.
+    + rewrite G in Gu. destruct wk as [x|]; [|eapply i2_enq; eauto].
+      destruct (Nat.eqb_spec x u) as [->|Hxu]; [|eapply i2_enq; eauto].
+      exfalso. destruct (Hhand u (Hwk _ eq_refl)) as [_ B]. unfold ENQ in B.
+      destruct W as (_ & thx & k & A & M & _). rewrite A in Gu, B. rewrite M in Gu. inv Gu.
+      cbn in Hin. apply nenq_in in Hin. unfold nenq in B. lia.
+Qed.
+
+Definition ures_hand (r : ures) (y : nat) : nat := match r with UNext u' => upc_hand u' y | UFin _ => O end.
+
+Lemma urel_sl s t th u s1 th1 r :
+  urel s t th u s1 th1 r -> get_thread s t = Some th ->
+  exists wk, wk_rel s s1 t wk /\ cbs th1 = cbs th /\ cqs s1 = cqs s /\
+    (forall x, wk = Some x -> (1 <= upc_hand u x)%nat) /\
+    (main th1 = main th \/ (1 <= upc_hand u t)%nat) /\
+    forall y, (QQ s1 y + ures_hand r y + wkn wk y + selfn t y (b2n (is_susp (main th)))
+               = QQ s y + upc_hand u y + selfn t y (b2n (is_susp (main th1))))%nat.
+Proof.
+  intros U Hth. inv U.
+  all: try (exists None; cbn; repeat split; auto; try discriminate; intros y; unfold QQ, cqcount; gts; cbn; lia).
+  - (* deq *) exists None. cbn. repeat split; auto; try discriminate. intros y. unfold QQ, cqcount. gts.
+    rewrite H. cbn. lia.
+  - (* push *) exists (Some x). cbn. repeat split; auto.
+    + exists thx, k. auto.
+    + intros x0 E. inv E. rewrite Nat.eqb_refl. cbn. lia.
+    + intros y. unfold QQ, cqcount. gts. lia.
+  - (* push self *) exists None. cbn. repeat split; auto; try discriminate.
+    + right. rewrite Nat.eqb_refl. cbn. lia.
+    + intros y. rewrite H. unfold selfn. cbn. destruct (Nat.eqb t y); cbn; lia.
+Qed.
